@@ -285,6 +285,9 @@ type Frame struct {
 	unsupported []string
 	ghost   map[string]string // frame-local ghost terms (property drivers)
 	panics  []flow
+	nonNilParams map[*ssa.Parameter]bool
+	locals  []localCell
+	autoDrop map[string]bool
 }
 
 func (fr *Frame) root() *Frame {
@@ -312,7 +315,7 @@ var frameCounter int
 func newFrame(q *Query, fn *ssa.Function, parent *Frame) *Frame {
 	frameCounter++
 	fr := &Frame{q: q, fn: fn, parent: parent, vals: map[ssa.Value]Val{}, edgeOut: map[*ssa.BasicBlock][]flow{},
-		loops: map[*ssa.BasicBlock]*loopInfo{}, backEdge: map[[2]int]bool{}, callOrd: map[string]int{}, ghost: map[string]string{}}
+		nonNilParams: map[*ssa.Parameter]bool{}, loops: map[*ssa.BasicBlock]*loopInfo{}, backEdge: map[[2]int]bool{}, callOrd: map[string]int{}, ghost: map[string]string{}}
 	if parent == nil {
 		fr.prefix = "v"
 	} else {
@@ -846,4 +849,115 @@ func constInt64(c *ssa.Const) (int64, bool) {
 		return 0, false
 	}
 	return v, true
+}
+
+// ---------- escape analysis for local cells ----------
+
+var escapeCache = map[*ssa.Alloc]bool{}
+
+// allocEscapes: may the address of this local cell be known to any code other than the allocating
+// function's own loads/stores (and its directly called/deferred closures)?
+func allocEscapes(a *ssa.Alloc) bool {
+	if v, ok := escapeCache[a]; ok {
+		return v
+	}
+	escapeCache[a] = true // cycles: conservative
+	r := addrEscapes(a, 0)
+	escapeCache[a] = r
+	return r
+}
+
+func addrEscapes(v ssa.Value, depth int) bool {
+	if depth > 6 {
+		return true
+	}
+	refs := v.Referrers()
+	if refs == nil {
+		return true
+	}
+	for _, r := range *refs {
+		switch x := r.(type) {
+		case *ssa.DebugRef:
+		case *ssa.Store:
+			if x.Val == v {
+				return true
+			}
+		case *ssa.UnOp:
+			// load through the address
+		case *ssa.FieldAddr:
+			if addrEscapes(x, depth+1) {
+				return true
+			}
+		case *ssa.IndexAddr:
+			if addrEscapes(x, depth+1) {
+				return true
+			}
+		case *ssa.MakeClosure:
+			// the closure value must only be called or deferred, and the free variable must not escape inside it
+			crefs := x.Referrers()
+			if crefs == nil {
+				return true
+			}
+			for _, cr := range *crefs {
+				switch c := cr.(type) {
+				case *ssa.DebugRef:
+				case *ssa.Defer:
+					if c.Call.Value != x {
+						return true
+					}
+				case *ssa.Call:
+					if c.Call.Value != x {
+						return true
+					}
+				default:
+					return true
+				}
+			}
+			fn := x.Fn.(*ssa.Function)
+			for i, b := range x.Bindings {
+				if b == v {
+					if i >= len(fn.FreeVars) || addrEscapes(fn.FreeVars[i], depth+1) {
+						return true
+					}
+				}
+			}
+		default:
+			return true
+		}
+	}
+	return false
+}
+
+type localCell struct {
+	ins  *ssa.Alloc
+	addr string
+}
+
+// preserveLocals: cells of non-escaping local allocations keep their contents across a havoc of their families.
+func (fr *Frame) snapshotLocals(st *State, skip func(a *ssa.Alloc) bool) func(st2 *State) {
+	type snap struct {
+		fam, addr, old string
+	}
+	var snaps []snap
+	for f := fr; f != nil; f = f.parent {
+		for _, lc := range f.locals {
+			if allocEscapes(lc.ins) || (skip != nil && skip(lc.ins)) {
+				continue
+			}
+			elem := lc.ins.Type().(*types.Pointer).Elem()
+			for _, lf := range layoutOf(elem).leaves {
+				famLeafSort[lf.Arr] = lf.Sort
+				a := sAdd(lc.addr, sInt(int64(lf.Off)))
+				snaps = append(snaps, snap{lf.Arr, a, fmt.Sprintf("(select %s %s)", fr.q.get(st, lf.Arr), a)})
+			}
+		}
+	}
+	return func(st2 *State) {
+		for _, s := range snaps {
+			now := fmt.Sprintf("(select %s %s)", fr.q.get(st2, s.fam), s.addr)
+			if now != s.old {
+				fr.q.assume("true", sEq(now, s.old))
+			}
+		}
+	}
 }
